@@ -14,22 +14,27 @@ class condense_ballots:
     key/value sequences with lookup through the proved contract of Ballot.__eq__ (S-DICT)."""
     params = dict(self=Profile)
     returns = Profile
-    forall = dict(kb=Ballot, rk=Bool, k=Seq(CSet), a=Int, b=Int)
+    forall = dict(kb=Ballot, rk=Bool, k=Seq(CSet), a=Int, b=Int, sv=Seq(Real), x=Str, C=CSet)
     locals = dict(weight_accumulator=BDict, new_ballot_list=Seq(Ballot, "list"), i=Int)
 
     def requires(self):
         # data-structure invariant of a constructed profile: a duplicate-free candidate list
         return distinct(self.candidates, len(self.candidates))
 
-    def ensures(self, result, kb, rk, k, a, b):
+    def ensures(self, result, kb, rk, k, a, b, sv, x, C):
         return (implies(len(self.candidates) > 0 or len(self.ballots) == 0, result.candidates == self.candidates)
+                and distinct(result.candidates, len(result.candidates))
                 and wrank(result.ballots, len(result.ballots), k) == wrank(self.ballots, len(self.ballots), k)
+                # every additive functional of the rankings is preserved (pts is uninterpreted in this proof): positional scores
+                and wpts(result.ballots, len(result.ballots), sv, x) == wpts(self.ballots, len(self.ballots), sv, x)
+                # every written ranking is an input ranking: a property all input rankings have (rk_ok, uninterpreted here) holds of all written ones
+                and implies(all_rk_ok(self.ballots, len(self.ballots), C), all_rk_ok(result.ballots, len(result.ballots), C))
                 and implies(rk or all_wf(self.ballots, len(self.ballots)),
                             wcont(result.ballots, len(result.ballots), kb, rk) == wcont(self.ballots, len(self.ballots), kb, rk))
                 and implies(all_wf(self.ballots, len(self.ballots)) and 0 <= a and a < b and b < len(result.ballots),
                             not cmatch(result.ballots[a], result.ballots[b], False)))
 
-    def invariant_0(self, weight_accumulator, kb, rk, k, _k):
+    def invariant_0(self, weight_accumulator, kb, rk, k, sv, x, C, _k):
         return (len(bd_keys(weight_accumulator)) == len(bd_vals(weight_accumulator)) and len(weight_accumulator) <= _k
                 and all_wf(bd_keys(weight_accumulator), len(weight_accumulator))
                 and kdist(bd_keys(weight_accumulator), len(weight_accumulator))
@@ -38,9 +43,11 @@ class condense_ballots:
                             acc(bd_keys(weight_accumulator), bd_vals(weight_accumulator), len(weight_accumulator), kb, rk)
                             == wcont(self.ballots, _k, kb, rk))
                 and acc(bd_keys(weight_accumulator), bd_vals(weight_accumulator), len(weight_accumulator), Ballot(ranking=k), True)
-                == wcont(self.ballots, _k, Ballot(ranking=k), True))
+                == wcont(self.ballots, _k, Ballot(ranking=k), True)
+                and accp(bd_keys(weight_accumulator), bd_vals(weight_accumulator), len(weight_accumulator), sv, x) == wpts(self.ballots, _k, sv, x)
+                and implies(all_rk_ok(self.ballots, len(self.ballots), C), all_rk_ok(bd_keys(weight_accumulator), len(weight_accumulator), C)))
 
-    def hint_inv_0(self, _pre_weight_accumulator, weightless_ballot, ballot, kb, rk, k, _k):
+    def hint_inv_0(self, _pre_weight_accumulator, weightless_ballot, ballot, kb, rk, k, sv, x, C, _k):
         return (bfind_range(bd_keys(_pre_weight_accumulator), len(_pre_weight_accumulator), weightless_ballot)
                 and bfind_app(bd_keys(_pre_weight_accumulator), weightless_ballot, len(_pre_weight_accumulator), weightless_ballot)
                 and key_ok_app(bd_keys(_pre_weight_accumulator), weightless_ballot, len(_pre_weight_accumulator))
@@ -65,16 +72,28 @@ class condense_ballots:
                 and acc_upd(bd_keys(_pre_weight_accumulator) + (weightless_ballot,), bd_vals(_pre_weight_accumulator) + (Fraction(0),),
                             len(_pre_weight_accumulator), Fraction(0) + ballot.weight, len(_pre_weight_accumulator) + 1, kb, rk)
                 and acc_upd(bd_keys(_pre_weight_accumulator) + (weightless_ballot,), bd_vals(_pre_weight_accumulator) + (Fraction(0),),
-                            len(_pre_weight_accumulator), Fraction(0) + ballot.weight, len(_pre_weight_accumulator) + 1, Ballot(ranking=k), True))
+                            len(_pre_weight_accumulator), Fraction(0) + ballot.weight, len(_pre_weight_accumulator) + 1, Ballot(ranking=k), True)
+                and all_rk_ok_app(bd_keys(_pre_weight_accumulator), weightless_ballot, len(_pre_weight_accumulator), C)
+                and all_rk_ok_nth(self.ballots, len(self.ballots), C, _k)
+                and accp_app(bd_keys(_pre_weight_accumulator), bd_vals(_pre_weight_accumulator), weightless_ballot, Fraction(0),
+                             len(_pre_weight_accumulator), sv, x)
+                and accp_upd(bd_keys(_pre_weight_accumulator), bd_vals(_pre_weight_accumulator),
+                             bfind(bd_keys(_pre_weight_accumulator), len(_pre_weight_accumulator), weightless_ballot),
+                             bd_vals(_pre_weight_accumulator)[bfind(bd_keys(_pre_weight_accumulator), len(_pre_weight_accumulator), weightless_ballot)] + ballot.weight,
+                             len(_pre_weight_accumulator), sv, x)
+                and accp_upd(bd_keys(_pre_weight_accumulator) + (weightless_ballot,), bd_vals(_pre_weight_accumulator) + (Fraction(0),),
+                             len(_pre_weight_accumulator), Fraction(0) + ballot.weight, len(_pre_weight_accumulator) + 1, sv, x))
 
     def invariant_1(weight_accumulator, new_ballot_list, i, _k):
         return (i == _k and len(new_ballot_list) == len(weight_accumulator)
                 and new_ballot_list[:_k] == list(cb_prefix(bd_keys(weight_accumulator), bd_vals(weight_accumulator), _k)))
 
-    def hint_return(self, weight_accumulator, kb, rk, k, a, b):
+    def hint_return(self, weight_accumulator, kb, rk, k, a, b, sv, x, C):
         return (cb_prefix_len(bd_keys(weight_accumulator), bd_vals(weight_accumulator), len(weight_accumulator))
                 and wcont_cb_prefix(bd_keys(weight_accumulator), bd_vals(weight_accumulator), len(weight_accumulator), kb, rk)
                 and wcont_cb_prefix(bd_keys(weight_accumulator), bd_vals(weight_accumulator), len(weight_accumulator), Ballot(ranking=k), True)
                 and cb_distinct(bd_keys(weight_accumulator), bd_vals(weight_accumulator), len(weight_accumulator), a, b)
+                and wpts_cb_prefix(bd_keys(weight_accumulator), bd_vals(weight_accumulator), len(weight_accumulator), sv, x)
+                and cb_prefix_ok(bd_keys(weight_accumulator), bd_vals(weight_accumulator), len(weight_accumulator), C)
                 and wcont_wrank(self.ballots, len(self.ballots), k)
                 and wcont_wrank(cb_prefix(bd_keys(weight_accumulator), bd_vals(weight_accumulator), len(weight_accumulator)), len(weight_accumulator), k))
